@@ -48,3 +48,13 @@ package types
 // acknowledged)
 // verif:func NewAcknowledgement
 //@ ensures [fields] result == Acknowledgement{Code: code, Result: results, Message: message, Relayer: relayer, FeeOption: feeOption}
+
+// ---- genesis validation establishes what InitGenesis requires (C15: a validated genesis initialises without panic;
+// the store rejects nil values) ----
+// verif:func (GenesisState).Validate
+//@ loop 1 invariant [acks-so-far] forall j int :: 0 <= j && j < idx1 ==> gs.Acknowledgements[j].Data != nil
+//@ loop 3 invariant [commitments-so-far] forall j int :: 0 <= j && j < idx3 ==> gs.Commitments[j].Data != nil
+//@ loop 3 invariant [acks-kept] forall j int :: 0 <= j && j < len(gs.Acknowledgements) ==> gs.Acknowledgements[j].Data != nil
+//@ loop 2 invariant [acks-kept] forall j int :: 0 <= j && j < len(gs.Acknowledgements) ==> gs.Acknowledgements[j].Data != nil
+//@ loop 4 invariant [both-kept] (forall j int :: 0 <= j && j < len(gs.Acknowledgements) ==> gs.Acknowledgements[j].Data != nil) && (forall j int :: 0 <= j && j < len(gs.Commitments) ==> gs.Commitments[j].Data != nil)
+//@ ensures [what-init-genesis-requires] result == nil ==> (forall j int :: 0 <= j && j < len(gs.Acknowledgements) ==> gs.Acknowledgements[j].Data != nil) && (forall j int :: 0 <= j && j < len(gs.Commitments) ==> gs.Commitments[j].Data != nil)
